@@ -704,6 +704,12 @@ struct XView {
     /// per table name: `name,sheet,cols | data dump`
     tables: Vec<String>,
     tables_ref: Vec<String>,
+    /// `Range::from(table)` per table name: the dump of the range (or the lookup's error)
+    into_range: Vec<String>,
+    /// `worksheet_merge_cells_at(number of sheets)`
+    wmc_at_end: String,
+    /// per table name: is the borrowed table, cell-wise converted, equal to the owned one?
+    ref_conv: Vec<String>,
 }
 
 fn region_text(l: &[(String, String, ((u32, u32), (u32, u32)))]) -> String {
@@ -758,6 +764,7 @@ fn impl_xlsx(bytes: &[u8], spec: &XlsxSpec, table_names: &[String]) -> XView {
         v.wmc.push(wmc_text(guarded(|| wb.worksheet_merge_cells(&sh.name))));
         v.wmc_at.push(wmc_text(guarded(|| wb.worksheet_merge_cells_at(i))));
     }
+    v.wmc_at_end = wmc_text(guarded(|| wb.worksheet_merge_cells_at(spec.sheets.len())));
     match guarded(|| wb.load_tables()) {
         Ok(Ok(())) => {
             let names: Vec<String> = wb.table_names().into_iter().cloned().collect();
@@ -793,6 +800,29 @@ fn impl_xlsx(bytes: &[u8], spec: &XlsxSpec, table_names: &[String]) -> XView {
                     Ok(Err(e)) => err_tag(&e),
                     Err(_) => "panic".into(),
                 });
+                // `impl From<Table<T>> for Range<T>`
+                v.into_range.push(match guarded(|| {
+                    wb.table_by_name(n).map(|t| {
+                        let r: Range<Data> = t.into();
+                        dump_range(&r, data_num)
+                    })
+                }) {
+                    Ok(Ok(s)) => s,
+                    Ok(Err(e)) => err_tag(&e),
+                    Err(_) => "panic".into(),
+                });
+                // the borrowed table, converted cell by cell with `Data::from(DataRef)`, is the owned table
+                let owned: Option<(Option<(u32, u32)>, Option<(u32, u32)>, Vec<Data>)> = guarded(|| {
+                    wb.table_by_name(n).ok().map(|t| (t.data().start(), t.data().end(), t.data().cells().map(|c| c.2.clone()).collect()))
+                })
+                .ok()
+                .flatten();
+                let conv: Option<(Option<(u32, u32)>, Option<(u32, u32)>, Vec<Data>)> = guarded(|| {
+                    wb.table_by_name_ref(n).ok().map(|t| (t.data().start(), t.data().end(), t.data().cells().map(|c| Data::from(c.2.clone())).collect()))
+                })
+                .ok()
+                .flatten();
+                v.ref_conv.push(if owned == conv { "same".into() } else { format!("differs: owned {:?} / from ref {:?}", owned.map(|o| (o.0, o.1, o.2.len())), conv.map(|o| (o.0, o.1, o.2.len()))) });
             }
         }
         Ok(Err(e)) => v.names = err_tag(&e),
@@ -810,63 +840,56 @@ fn wire(evs: &[Ev]) -> String {
 
 fn model_xlsx(b: &BuiltX, spec: &XlsxSpec, table_names: &[String], drv: &mut Driver, mode: &str) -> XView {
     let mut v = XView { open: "ok".into(), ..Default::default() };
-    let mut req = format!("mregions {mode}");
+    // merged regions: the Lean `mergedRegions`, `mergedRegionsBySheet`, `worksheetMergeCellsByName`, `worksheetMergeCellsAt`
+    let mut req = format!("sheetsview {mode}");
     for (i, sh) in spec.sheets.iter().enumerate() {
         req.push_str(&format!(" S {} {} {} |", hex(sh.name.as_bytes()), hex(b.sheet_paths[i].as_bytes()), wire(&b.sheet_events[i])));
     }
-    v.mregions = drv.ask(&req);
-    // merged_regions_by_sheet is a filter of the list by name
-    if let Some(list) = v.mregions.strip_prefix("ok ") {
-        for sh in &spec.sheets {
-            let key = format!("{},", hex(sh.name.as_bytes()));
-            let l: Vec<&str> = list.split(';').filter(|e| e.starts_with(&key)).collect();
-            v.by_sheet.push(if l.is_empty() { "-".into() } else { l.join(";") });
-        }
+    let reply = drv.ask(&req);
+    let parts: Vec<&str> = reply.split(" ## ").collect();
+    if parts.len() != 5 {
+        v.mregions = format!("driver-protocol:{reply}");
+        return v;
     }
-    for i in 0..spec.sheets.len() {
-        let r = drv.ask(&format!("wmc {mode} {}", wire(&b.sheet_events[i])));
-        v.wmc.push(r.clone());
-        v.wmc_at.push(r);
+    let list = |s: &str| -> Vec<String> { s.split(" ;; ").map(|x| x.to_string()).collect() };
+    v.mregions = parts[0].to_string();
+    if v.mregions.starts_with("ok") {
+        v.by_sheet = list(parts[1]);
     }
-    let mut req = format!("tables {mode}");
+    v.wmc = list(parts[2]);
+    v.wmc_at = list(parts[3]);
+    v.wmc_at_end = parts[4].to_string();
+    // tables: the Lean `readTableMetadata`, `tableNames`, `tableNamesInSheet`, `tableByName`, `Table.toRange`
+    let mut req = format!("tablesview {mode}");
     for (i, sh) in spec.sheets.iter().enumerate() {
-        req.push_str(&format!(" S {} {} |", hex(sh.name.as_bytes()), hex(b.sheet_paths[i].as_bytes())));
+        req.push_str(&format!(" S {} {} {} |", hex(sh.name.as_bytes()), hex(b.sheet_paths[i].as_bytes()), cells_wire(&sh.cells)));
     }
     req.push_str(" ||");
     for (n, evs) in &b.parts {
         req.push_str(&format!(" P {} {} |", hex(n.as_bytes()), wire(evs)));
     }
+    req.push_str(" || N");
+    for n in table_names {
+        req.push_str(&format!(" {}", hex(n.as_bytes())));
+    }
     let reply = drv.ask(&req);
-    match reply.strip_prefix("ok ") {
-        None => v.names = reply,
-        Some(list) => {
-            // entry: name,sheet,cols,sr,sc,er,ec
-            let entries: Vec<Vec<&str>> = if list == "-" { vec![] } else { list.split(';').map(|e| e.split(',').collect()).collect() };
-            let names: Vec<String> = entries.iter().map(|e| e[0].to_string()).collect();
-            v.names = format!("ok {}", if names.is_empty() { "-".into() } else { names.join(";") });
-            for sh in &spec.sheets {
-                let key = hex(sh.name.as_bytes());
-                let l: Vec<&str> = entries.iter().filter(|e| e[1] == key).map(|e| e[0]).collect();
-                v.in_sheet.push(if l.is_empty() { "-".into() } else { l.join(";") });
-            }
-            for n in table_names {
-                let key = hex(n.as_bytes());
-                let s = match entries.iter().find(|e| e[0] == key) {
-                    None => "err:TableNotFound".to_string(),
-                    Some(e) => {
-                        let sheet = String::from_utf8(unhex(e[1])).unwrap_or_default();
-                        let cells = spec.sheets.iter().find(|s| s.name == sheet).map(|s| cells_wire(&s.cells)).unwrap_or("-".into());
-                        let d = drv.ask(&format!("tdata {} {} {} {} {}", e[3], e[4], e[5], e[6], cells));
-                        if d == "panic" {
-                            "panic".to_string()
-                        } else {
-                            format!("{},{},{} | {}", e[0], e[1], e[2], d)
-                        }
-                    }
-                };
-                v.tables.push(s.clone());
-                v.tables_ref.push(s);
-            }
+    let parts: Vec<&str> = reply.split(" ## ").collect();
+    if parts.len() != 4 {
+        v.names = reply; // err:… / panic of read_table_metadata
+        return v;
+    }
+    v.names = format!("ok {}", parts[1]);
+    v.in_sheet = list(parts[2]);
+    for t in list(parts[3]) {
+        let seg: Vec<&str> = t.split(" | ").collect();
+        if seg.len() == 3 {
+            v.tables.push(format!("{} | {}", seg[0], seg[1]));
+            v.tables_ref.push(format!("{} | {}", seg[0], seg[1]));
+            v.into_range.push(seg[2].to_string());
+        } else {
+            v.tables.push(t.clone());
+            v.tables_ref.push(t.clone());
+            v.into_range.push(t);
         }
     }
     v
@@ -1011,6 +1034,7 @@ fn eval_xlsx(spec: &XlsxSpec, drv: &mut Driver, mode: &str) -> Outcome {
         judge(&mut out, "xlsx.worksheet_merge_cells", &g(&imp.wmc), &g(&model.wmc), if regions_expected { Some(&orc.wmc[i]) } else { None });
         judge(&mut out, "xlsx.worksheet_merge_cells_at", &g(&imp.wmc_at), &g(&model.wmc_at), if regions_expected { Some(&orc.wmc_at[i]) } else { None });
     }
+    judge(&mut out, "xlsx.worksheet_merge_cells_at", &imp.wmc_at_end, &model.wmc_at_end, Some("none"));
     // tables: the name lists are expected whenever every table declaration parses (always, here)
     // an unparsable `ref` makes load_tables return Err for the workbook: no expectation then
     let tables_loadable = spec.tables.iter().all(|t| t.rr.is_none());
@@ -1033,6 +1057,12 @@ fn eval_xlsx(spec: &XlsxSpec, drv: &mut Driver, mode: &str) -> Outcome {
             // robustness (shared with C06): whatever the declaration, a lookup returns, it never unwinds
             if g(&imp.tables) == "panic" || g(&imp.tables_ref) == "panic" {
                 fail(&mut out, "impl_vs_spec", "table.no_panic", &g(&imp.tables), &g(&model.tables), "Ok or Err");
+            }
+            // `Range::from(table)` is the table's data
+            let data_of = |s: &str| s.split_once(" | ").map(|x| x.1.to_string()).unwrap_or_else(|| s.to_string());
+            judge(&mut out, "table.into_range", &g(&imp.into_range), &g(&model.into_range), Some(&data_of(&g(&imp.tables))));
+            if g(&imp.ref_conv) != "same" {
+                fail(&mut out, "impl_vs_spec", "table.by_name_ref_conversion", &g(&imp.ref_conv), "", "same");
             }
             // the borrowed variant must observe exactly what the owned one does
             if g(&imp.tables_ref) != g(&imp.tables) {
@@ -1140,6 +1170,16 @@ fn eval_xls(spec: &XlsSpec, drv: &mut Driver) -> Outcome {
             return out;
         }
     };
+    // workbook level in Lean: the map the sheet loop fills, `xlsWorksheetMergeCells` and `worksheetMergeCellsAt`
+    let book_req = format!(
+        "xlsbook {}",
+        spec.sheets.iter().zip(&model_reqs).map(|(sh, r)| format!("{} {}", hex(sh.name.as_bytes()), r.trim_start_matches("xlssheet "))).collect::<Vec<_>>().join(" | ")
+    );
+    let book_reply = drv.ask(&book_req);
+    let (book_by_name, book_at): (Vec<String>, Vec<String>) = match book_reply.split_once(" ## ") {
+        Some((a, b)) => (a.split(" ;; ").map(|x| x.to_string()).collect(), b.split(" ;; ").map(|x| x.to_string()).collect()),
+        None => (vec![book_reply.clone()], vec![book_reply.clone()]),
+    };
     let mut total = 0;
     for (i, sh) in spec.sheets.iter().enumerate() {
         let show = |r: Option<Vec<calamine::Dimensions>>| match r {
@@ -1161,6 +1201,15 @@ fn eval_xls(spec: &XlsSpec, drv: &mut Driver) -> Outcome {
         let exp = format!("ok {}", show_rects(&declared));
         judge(&mut out, "xls.worksheet_merge_cells", &imp, &model, Some(&exp));
         judge(&mut out, "xls.worksheet_merge_cells_at", &imp_at, &model, Some(&exp));
+        let g = |v: &Vec<String>| v.get(i).cloned().unwrap_or_else(|| "(absent)".into());
+        judge(&mut out, "xls.worksheet_merge_cells:book", &imp, &g(&book_by_name), Some(&exp));
+        judge(&mut out, "xls.worksheet_merge_cells_at:book", &imp_at, &g(&book_at), Some(&exp));
+    }
+    {
+        let n = spec.sheets.len();
+        let imp_end = guarded(|| wb.worksheet_merge_cells_at(n)).map(|r| if r.is_none() { "none".to_string() } else { "some".to_string() }).unwrap_or("panic".into());
+        let model_end = book_at.get(n).cloned().unwrap_or_else(|| "(absent)".into());
+        judge(&mut out, "xls.worksheet_merge_cells_at:end", &imp_end, &model_end, Some("none"));
     }
     let imp_none = guarded(|| wb.worksheet_merge_cells("No such sheet")).map(|r| r.is_none().to_string()).unwrap_or("panic".into());
     if imp_none != "true" {
